@@ -56,6 +56,17 @@ class Subject:
         self._enc = None
         self._dec = None
 
+    def dialect_for(self, dterm):
+        """one Dialect class per distinct dialect term (same term => same class object)"""
+        from harness.classes import build_dialect
+        from harness.terms import jkey
+        if not hasattr(self, "_dialects"):
+            self._dialects = {}
+        k = jkey(dterm)
+        if k not in self._dialects:
+            self._dialects[k] = build_dialect(dterm, self.reg)
+        return self._dialects[k]
+
     def encode_py(self, x, **kw):
         if self.mixin:
             return x.to_dict(**kw)
